@@ -85,6 +85,29 @@ def evaluate(e, dtype):
         for k, (p, q) in enumerate(zip(list(L.cores) + [L.bias], cores2 + [b2])):
             if p.grad is None or not torch.equal(p.grad, q.grad):
                 fails.append("gradient of parameter %d differs from the gradient of the dense affine map" % k)
+        # W is contracted from the layer's REGISTERED parameters, whatever they are now: (a) parameters replaced (not copied into) after
+        # construction, (b) a stateless call with substituted parameters
+        L2, *_ = e.layer(dtype)
+        for k, c in enumerate(e.args[0].cores):
+            L2.cores[k] = torch.nn.Parameter(ttgen.to_torch(c, dtype))
+        L2.bias = torch.nn.Parameter(ttgen.to_torch(e.args[1].arr, dtype))
+        y3 = L2.forward(X)
+        if not torch.equal(y3.detach(), y2.detach()):
+            fails.append("forward() after replacing the registered cores / bias does not use the new parameters")
+        else:
+            (w * y3).sum().backward()
+            for k, (p, q) in enumerate(zip(list(L2.cores) + [L2.bias], cores2 + [b2])):
+                if p.grad is None or not torch.equal(p.grad, q.grad):
+                    fails.append("gradient of replaced parameter %d differs from the gradient of the dense affine map" % k)
+        L3, *_ = e.layer(dtype)
+        names = [n_ for n_, _ in L3.named_parameters()]
+        sub = {}
+        for n_ in names:
+            if n_ == "bias": sub[n_] = ttgen.to_torch(e.args[1].arr, dtype)
+            else: sub[n_] = ttgen.to_torch(e.args[0].cores[int(n_.split(".")[-1])], dtype)
+        y4 = torch.func.functional_call(L3, sub, (X,))
+        if not torch.equal(y4.detach(), y2.detach()):
+            fails.append("torch.func.functional_call with substituted parameters does not compute the affine map of those parameters")
     except Exception as ex:
         fails.append("layer construction / gradient check raised %s: %s" % (type(ex).__name__, str(ex)[:100]))
     return oi, fails
@@ -108,6 +131,7 @@ def nontrivial(e, cat):
 
 RULE = ("random layers: 1..4 modes of size 1..5 (rectangular size_in/size_out), rank profiles up to 3, batch shapes with 0..3 leading dims, "
         "float32/float64, both initialisers; integer weights written into the registered parameters so forward() and all parameter gradients are exact; "
+        "also with the parameters replaced after construction (layer.cores[k] = Parameter(..)) and through torch.func.functional_call with substituted parameters; "
         "non-trivial = some interior rank > 1; distinct = distinct (structure, dtype) key")
 
 def run(tier, seed, replay=None):
